@@ -56,6 +56,26 @@ pub fn ev_get(i: usize) -> u32 {
     unsafe { EVLOG[i] }
 }
 
+
+// Byte log (session 3): bytes delivered to recording sinks, tagged with the sink id, in order.
+pub const NBL: usize = 24;
+static mut BLOG: [u16; NBL] = [0; NBL];
+static mut BLN: usize = 0;
+pub fn bl_push(id: u32, b: u8) {
+    unsafe {
+        if BLN < NBL {
+            BLOG[BLN] = ((id as u16) << 8) | b as u16;
+        }
+        BLN += 1;
+    }
+}
+pub fn bl_len() -> usize {
+    unsafe { BLN }
+}
+pub fn bl_get(i: usize) -> u16 {
+    unsafe { BLOG[i] }
+}
+
 // ---------------------------------------------------------------------------------------------
 // Model of the log facade's global max level (`log::set_max_level` / `log::max_level`).
 // Used where the harness needs a schedule point at the moment the gate is written (C12) and to
